@@ -20,9 +20,10 @@ pub mod c17;
 pub mod c18;
 pub mod c19;
 pub mod c20;
+pub mod extra;
 
 pub fn all() -> Vec<Property> {
-    vec![
+    let mut v = vec![
         c01::property(),
         c02::property(),
         c03::property(),
@@ -43,5 +44,7 @@ pub fn all() -> Vec<Property> {
         c18::property(),
         c19::property(),
         c20::property(),
-    ]
+    ];
+    extra::extend(&mut v);
+    v
 }
